@@ -241,18 +241,29 @@ def compute_slice(fnode: ast.AST, criterion: Callable[[ast.AST], bool], stop: se
     return prune(fnode.body), crit_nodes, relevant  # type: ignore[attr-defined]
 
 
-def run_slice(S: Any, fn: Any, criterion: Callable[[ast.AST], bool], env: dict[str, Any], stop: set[str] | None = None) -> dict[str, Any]:
-    """Interpret the backward slice of ``fn`` for the selected expressions; returns the final locals."""
+_SLICE_MEMO: dict[Any, Any] = {}
+
+
+def run_slice(S: Any, fn: Any, criterion: Callable[[ast.AST], bool], env: dict[str, Any], stop: set[str] | None = None, cache_key: str | None = None) -> dict[str, Any]:
+    """Interpret the backward slice of ``fn`` for the selected expressions; returns the final locals.
+    ``cache_key`` names the criterion: the (purely syntactic) slice is then computed once per process
+    and function source instead of once per path."""
     from .interp import Frame
 
     stop = set(stop or ())
     fs = source_of(fn)
-    body, crit_nodes, relevant = compute_slice(fs.node, criterion, stop)
+    mk = (fs.relpath, fs.qualname, fs.sha256, cache_key, frozenset(stop))
+    if cache_key is not None and mk in _SLICE_MEMO:
+        body, crit_nodes, relevant = _SLICE_MEMO[mk]
+    else:
+        body, crit_nodes, relevant = compute_slice(fs.node, criterion, stop)
+        if cache_key is not None:
+            _SLICE_MEMO[mk] = (body, crit_nodes, relevant)
     S.functions[f"{fs.relpath}::{fs.qualname} [slice: {len(body)} top-level statements for {len(crit_nodes)} criterion expression(s)]"] = {"sha256": fs.sha256, "nodes": fs.nodes}
     S.note(f"slice of {fs.qualname}: statements outside the backward slice dropped; return/raise dropped (normal completion assumed); stop names {sorted(stop)} arbitrary")
     frame = Frame(fs, fn.__globals__, None, fs.qualname)
     params = {a.arg for a in fs.node.args.posonlyargs + fs.node.args.args + fs.node.args.kwonlyargs}
-    missing = sorted(n for n in (relevant & params) | (stop & _all_loads(body)) if n not in env)
+    missing = sorted(n for n in (relevant & params) | (stop & _all_loads(body) if stop else set()) if n not in env)
     if missing:
         raise Unsupported(f"slice of {fs.qualname} needs values for {missing}")
     frame.locals.update(env)
